@@ -173,7 +173,7 @@ def shapes_for(kwnames, maxpos):
 _SHAPES = {}
 
 
-def check_case(spec, form, sel, placement, stats, enum=True, kwnames=KW, maxpos=None):
+def check_case(spec, form, sel, placement, stats, enum=True, kwnames=KW, maxpos=None, first='self'):
     """spec: def parameter list (for methods WITHOUT self; self is added here)."""
     import sigtools
     stats.case()
@@ -182,10 +182,13 @@ def check_case(spec, form, sel, placement, stats, enum=True, kwnames=KW, maxpos=
         full = spec
     else:
         # def m(self, ...): self is positional-only exactly when a positional-only parameter follows it
-        full = (Par('self', PO if any(p.kind == PO for p in spec) else POK),) + spec
+        # (the instance parameter is usually spelled self, but any name will do -- and self may name another parameter)
+        if any(p.name == 'self' for p in spec):
+            first = 'this'
+        full = (Par(first, PO if any(p.kind == PO for p in spec) else POK),) + spec
         if form == 'names' and sel[1] and sel[2] == 1:
-            sel = [sel[0], ['self'] + [x for x in sel[1] if x != 'self'], sel[2]]
-    case = {'spec': list(map(list, spec)), 'form': form, 'sel': sel, 'placement': placement}
+            sel = [sel[0], [first] + [x for x in sel[1] if x != first], sel[2]]
+    case = {'spec': list(map(list, spec)), 'form': form, 'sel': sel, 'placement': placement, 'first': first}
     desc = '%s%r on def f(%s) as %s' % (form, sel, universe.spec_text(full), placement)
     try:
         exp = expect(full, form, sel)
@@ -217,10 +220,11 @@ def check_case(spec, form, sel, placement, stats, enum=True, kwnames=KW, maxpos=
         earlier = K()
         obj = K()
         try:
-            held = earlier.m if placement == 'bound' else None
+            # (for the class placement too: binding on an instance first must not change what the function itself accepts)
+            held = earlier.m
             target = obj.m if placement == 'bound' else K.m
         except Exception as e:
-            first_selected = form == 'names' and 'self' in (sel[0] + sel[1])
+            first_selected = form == 'names' and first in (sel[0] + sel[1])
             stats.cls('%s/%s/ACCESS-RAISED' % (form, placement))
             stats.fail('C12/%s/%s/%saccess-raises-%s' % (form, placement, 'first-parameter-selected/' if first_selected else '', type(e).__name__),
                        case, '%s: attribute access raised %s: %s' % (desc, type(e).__name__, e))
@@ -249,6 +253,8 @@ def check_case(spec, form, sel, placement, stats, enum=True, kwnames=KW, maxpos=
     has_vk = any(p.kind == VK for p in exp_t)
     ponames = {p.name for p in exp_t if p.kind == PO}
     mp = (cpbind.poscap(universe.spec_view(exp_t)) + 2) if maxpos is None else maxpos
+    if placement == 'class' and first not in kwnames:
+        kwnames = tuple(kwnames) + (first,)     # called through the class, the instance may be passed by keyword where advertised
     key = (kwnames, mp)
     shp = _SHAPES.get(key)
     if shp is None:
@@ -257,12 +263,14 @@ def check_case(spec, form, sel, placement, stats, enum=True, kwnames=KW, maxpos=
     for n, K in shp:
         if has_vk and ponames & set(K):
             continue
-        if placement == 'class' and n == 0:
+        if placement == 'class' and n == 0 and first not in K:
             continue
         args = tuple(100 + i for i in range(n))
-        if placement == 'class':
+        if placement == 'class' and n:
             args = (obj,) + args[1:]
         kwargs = {k: 'k_' + k for k in K}
+        if placement == 'class' and first in K:
+            kwargs[first] = obj
         stats.extra['calls'] += 1
         try:
             want = b.bind(args, kwargs, defaults)
@@ -276,8 +284,8 @@ def check_case(spec, form, sel, placement, stats, enum=True, kwnames=KW, maxpos=
             got = dict(got)
             got.pop('__fn__', None)
             if placement == 'bound':
-                if got.pop('self', None) is not obj:
-                    got = {'self': 'WRONG INSTANCE'}
+                if got.pop(first, None) is not obj:
+                    got = {first: 'WRONG INSTANCE'}
         if n and K and want is not None:
             mixed = True
         if got != want:
@@ -322,21 +330,21 @@ def selections(spec):
     return out
 
 
-def work_spec(spec, stats, placements):
+def work_spec(spec, stats, placements, first='self'):
     for form, sel in selections(spec):
         for pl in placements:
-            check_case(spec, form, sel, pl, stats)
+            check_case(spec, form, sel, pl, stats, first=first)
 
 
 def shard(arg):
     specs, placements = arg
     st = Stats()
-    for spec in specs:
-        work_spec(spec, st, placements)
+    for i, spec in enumerate(specs):
+        work_spec(spec, st, placements, first='this' if i % 3 == 2 else 'self')
     return st
 
 
-HN = ('a', 'b', 'c', 'd', 'e')
+HN = ('a', 'b', 'self', 'd', 'e')
 
 
 def st_case():
@@ -364,14 +372,14 @@ def st_case():
             d = [p.name for p in spec if p.kind == POK and p.default is not None]
             sel = None if draw(st.booleans()) else [x for x in d if draw(st.booleans())]
         pl = draw(st.sampled_from(['function', 'function', 'bound', 'class']))
-        return (spec, form, sel, pl)
+        return (spec, form, sel, pl, draw(st.sampled_from(['self', 'self', 'this'])))
     return build()
 
 
 def check_hyp(case, stats):
-    spec, form, sel, pl = case
+    spec, form, sel, pl, first = case
     names = tuple(p.name for p in spec if p.kind in (PO, POK, KWO))[:5] + ('q',)
-    check_case(spec, form, sel, pl, stats, enum=False, kwnames=names)
+    check_case(spec, form, sel, pl, stats, enum=False, kwnames=names, first=first)
 
 
 def shard_hyp(arg):
@@ -400,4 +408,4 @@ def replay(case, stats):
     spec = tuple(Par(*p) for p in case['spec'])
     spec = tuple(p._replace(default='1') if p.default is not None else p for p in spec)
     names = tuple(p.name for p in spec if p.kind in (PO, POK, KWO))[:5] + ('q', 'zz')
-    check_case(spec, case['form'], case['sel'], case['placement'], stats, enum=False, kwnames=tuple(dict.fromkeys(names)))
+    check_case(spec, case['form'], case['sel'], case['placement'], stats, enum=False, kwnames=tuple(dict.fromkeys(names)), first=case.get('first', 'self'))
